@@ -88,6 +88,12 @@ func fuzzChild(args []string) {
 			}
 		}
 	}()
+	childTimeout := 30 * time.Second
+	if len(args) > 0 {
+		if n, err := strconv.Atoi(args[0]); err == nil && n > 0 {
+			childTimeout = time.Duration(n) * time.Second
+		}
+	}
 	config.InitConfig()
 	c := config.Get()
 	c.MaxHops, c.MaxRedirect = 1, 20
@@ -109,7 +115,20 @@ func fuzzChild(args []string) {
 			data, _ = hex.DecodeString(f[1])
 		}
 		ret := "ok"
+		// the child's own watchdog: dump all goroutines, name the package the input spins in, leave
+		wd := time.AfterFunc(childTimeout, func() {
+			buf := make([]byte, 4<<20)
+			n := runtime.Stack(buf, true)
+			site := fatalSite("\n\n"+string(buf[:n]), true)
+			if site == "" {
+				site = f[0]
+			}
+			fmt.Fprintf(out, "R hang\t%s\n", site)
+			out.Flush()
+			os.Exit(4)
+		})
 		panicked, msg, site := catch(func() { ret = runTarget(f[0], data, tmp) })
+		wd.Stop()
 		if panicked {
 			m := strings.NewReplacer("\n", " ", "\t", " ").Replace(msg)
 			if len(m) > 200 {
@@ -286,7 +305,7 @@ var (
 )
 
 func spawnFuzzChild() *fuzzProc {
-	cmd := exec.Command(os.Args[0], "fuzzchild")
+	cmd := exec.Command(os.Args[0], "fuzzchild", strconv.Itoa(int(fuzzTimeout/time.Second)))
 	in, _ := cmd.StdinPipe()
 	outp, _ := cmd.StdoutPipe()
 	eb := &bytes.Buffer{}
@@ -391,22 +410,32 @@ func shrinkFuzz(in string) []string {
 // runtime elides the middle of a deep stack, the innermost function of a spinning parser varies).
 func fatalSite(stderr string, innermost bool) string {
 	blocks := strings.Split(stderr, "\n\ngoroutine ")
+	fallback := ""
 	for _, blk := range blocks {
 		counts := map[string]int{}
 		for _, l := range strings.Split(blk, "\n") {
 			if l == "" || strings.HasPrefix(l, "\t") || strings.HasPrefix(l, " ") || strings.HasPrefix(l, "runtime.") || strings.HasPrefix(l, "runtime/") ||
-				strings.HasPrefix(l, "main.") || strings.Contains(l, "verifharness") || !strings.Contains(l, "(") || !strings.Contains(l, "/") {
+				strings.HasPrefix(l, "internal/") || strings.HasPrefix(l, "main.") || strings.Contains(l, "verifharness") || !strings.Contains(l, "(") || !strings.Contains(l, "/") {
 				continue
 			}
 			fn := l[:strings.LastIndex(l, "(")]
 			// package path = up to the first dot after the last slash
 			sl := strings.LastIndex(fn, "/")
-			if d := strings.Index(fn[sl+1:], "."); d > 0 {
-				if innermost {
-					return fn[:sl+1+d]
-				}
-				counts[fn[:sl+1+d]]++
+			d := strings.Index(fn[sl+1:], ".")
+			if d <= 0 {
+				continue
 			}
+			pkg := fn[:sl+1+d]
+			if first, _, _ := strings.Cut(pkg, "/"); !strings.Contains(first, ".") { // standard library
+				if fallback == "" {
+					fallback = pkg
+				}
+				continue
+			}
+			if innermost {
+				return pkg
+			}
+			counts[pkg]++
 		}
 		best, bn := "", 0
 		for k, n := range counts {
@@ -418,7 +447,7 @@ func fatalSite(stderr string, innermost bool) string {
 			return best
 		}
 	}
-	return ""
+	return fallback
 }
 
 func execFuzz(in string) Result {
@@ -461,7 +490,7 @@ func execFuzz(in string) Result {
 	var a answer
 	select {
 	case a = <-ch:
-	case <-time.After(fuzzTimeout):
+	case <-time.After(fuzzTimeout + 30*time.Second): // backstop; the child's own watchdog fires at fuzzTimeout
 		outcome = 2
 	}
 	el := time.Since(t0)
@@ -542,6 +571,18 @@ func execFuzz(in string) Result {
 			tags = append(tags, "ret:ok")
 		case "err":
 			tags = append(tags, "ret:err")
+		case "hang":
+			outcome = 2
+			site := target
+			if len(f) > 1 && f[1] != "" {
+				site = f[1]
+			}
+			p.kill()
+			p = spawnFuzzChild()
+			tags = append(tags, "hang="+site)
+			fuzzMu.Lock()
+			fuzzNote(fmt.Sprintf("HANG in %s: no answer within %s: %s", site, fuzzTimeout, describe()))
+			fuzzMu.Unlock()
 		case "panic":
 			outcome = 1
 			kind, site, msg := "?", "?", ""
